@@ -1184,3 +1184,6 @@ def _ip_from_int(ex, p, m, a, func, fr):
 @model(r'^<(?:\w+::)*Address as (?:std::convert::)?From<(?:std::net::)?SocketAddr>>::from$')
 def _addr_from_sa(ex, p, m, a, func, fr):
     return one(Enum(bv64(1), {'Socket': (a[0],)}, 'Address'))
+
+
+from . import timemodel  # noqa: E402  (registers the std::time contracts)
